@@ -274,17 +274,17 @@ theorem npm_iterate (var : Bytes) (cols : Option Nat) (body : M Status) (hb : NP
       | done => exact ih _ _
       | cont e => exact ih _ _
 
-theorem loopItems_noPanic (v : GoVal) : NoPanicRes (loopItems v) := by
+theorem loopItems_noPanic {budget : Int} (v : GoVal) : NoPanicRes (loopItems budget v) := by
   unfold loopItems
   split <;> try trivial
   · split <;> trivial
   · next kvs =>
     rcases MapOrder.sortedMapEntries_cases (ε := Cause) kvs with ⟨_, h⟩ | ⟨_, w, h⟩ <;> rw [h] <;> trivial
 
-theorem npm_loopRun (h : PrimsNoPanic P O) (path : Bytes) (loc : Loc) (tr : Bool) (var : Bytes) (e : Expr) (mods : LoopMods)
+theorem npm_loopRun {budget : Int} (h : PrimsNoPanic P O) (path : Bytes) (loc : Loc) (tr : Bool) (var : Bytes) (e : Expr) (mods : LoopMods)
     {bodyM : M Status} (hb : NPM bodyM) (tooMany : Bool) (elseM : Option (M Status))
     (he : ∀ m, elseM = some m → NPM m) :
-    NPM (loopRun P path loc tr var e mods bodyM tooMany elseM) := by
+    NPM (loopRun budget P path loc tr var e mods bodyM tooMany elseM) := by
   unfold loopRun
   refine npm_wrapAt _ _ (npm_bind npm_getEnv (fun env => npm_bind (npm_ofRes _ (evaluate_noPanic P O h env e)) (fun v =>
     npm_bind (npm_ofRes _ (loopItems_noPanic v)) (fun items0 => npm_bind (npm_intModifier h _ _) (fun off =>
